@@ -6,7 +6,10 @@
   Part 2  Memoize refines its base interpretation under key-injectivity (or the weaker
           `KeyRespects`), identical object on a repeated request, the source request of a cached
           object has the same (cls, args); the REAL key (class dropped) violates it: witness.
-  Other parts: Props/C03/Interp.lean (interp_agree, fv), Props/C03/Sequential.lean, Props/C03/Table.lean.
+  Other parts: Props/C03/Interp.lean (interp_agree, fv), Props/C03/Sequential.lean, Props/C03/Table.lean,
+  Props/C03/Anf.lean (the queue-based anf is topological, duplicate-free, complete, total) and
+  Props/C03/StackAnf.lean (stack_reinterpret_eq_rec: Part 1's hypothesis discharged for anf's own ordering;
+  reRec_eq_recEval: the bridge to the Term-level reinterpreter).
 -/
 import FunsorVerif.Model.C03
 namespace FV.Props.C03
@@ -423,6 +426,16 @@ example :
     let base : Bool → Nat → Option Bool := fun cls _ => some cls
     (respond fullKey base [(false, 0)] true 0).map Prod.fst = some true := by
   decide
+
+/-- **The key of the repaired code** (`Memoize.interpret` prefixes `get_origin(cls)` to
+    `make_hash_key`, i.e. `fullKey`): Memoize refines ANY base interpretation after ANY history, with no
+    side condition, and the object it returns was computed for the very same (cls, args). -/
+theorem memo_full_key_refines_base [DecidableEq C] [DecidableEq A] (base : C → A → Option V)
+    (hist : List (C × A)) (c : C) (a : A) :
+    (respond fullKey base hist c a).map Prod.fst = base c a ∧
+    ∀ v j, respond fullKey base hist c a = some (v, j) → (hist ++ [(c, a)])[j]? = some (c, a) :=
+  ⟨memo_refines_base_injective fullKey base full_key_injective hist c a,
+   fun v j h => memo_src_same_args fullKey base full_key_injective hist c a v j h⟩
 
 /-- The real key is injective within one class (repeated identical requests are recognised). -/
 theorem real_key_injective_one_class : KeyInjective (realKey (C := Unit) (A := A)) := by
